@@ -271,7 +271,11 @@ def evaluate(c: Dict[str, Any]) -> Tuple[List[Any], Dict[str, Any]]:
                     # the proxy can only pass on a close it has learnt of (EOF or error on the upstream socket)
                     up = [ks for ks in w.ksocks if ks.kname.startswith('upstream')]
                     ref = max(ref, origin.closed_iter or 0, (up[0].gone_iter or 0) if up else 0)
-                lag = client.eof_iter - ref
+                # promptness is the proxy's: the iteration at which IT closed the client socket (the client may notice later, when
+                # it next gets to move)
+                cs = [ks for ks in w.ksocks if ks.kname == 'client:client']
+                closed_at = cs[0].close_iter if cs and cs[0].close_iter is not None else client.eof_iter
+                lag = min(closed_at, client.eof_iter) - ref
                 info['lag'] = lag
                 if lag > PROMPT_B:
                     out.append(('close-not-prompt', feat, {'eof_iter': client.eof_iter, 'last_byte_iter': t_last,
